@@ -74,7 +74,22 @@ func (b *vlBus) Publish(topic string, ev events.Event) {
 	}
 }
 
-// l2gw G {name gpol R {sv cv rpol}} Q {s c}
+// access-types of a range: l = [l2gw], i = [ipoe], p = [pppoe], ip = [ipoe pppoe]
+func vlAccess(tok string) []subscriber.AccessType {
+	switch tok {
+	case "l":
+		return []subscriber.AccessType{subscriber.AccessTypeL2GW}
+	case "i":
+		return []subscriber.AccessType{subscriber.AccessTypeIPoE}
+	case "p":
+		return []subscriber.AccessType{subscriber.AccessTypePPPoE}
+	case "ip":
+		return []subscriber.AccessType{subscriber.AccessTypeIPoE, subscriber.AccessTypePPPoE}
+	}
+	return nil
+}
+
+// l2gw G {name gpol R {sv cv rpol acc}} Q {s c}
 func vlCase(f []string) (res string) {
 	defer func() {
 		if r := recover(); r != nil {
@@ -89,17 +104,16 @@ func vlCase(f []string) (res string) {
 	sg := &subscriber.SubscriberGroupsConfig{Groups: map[string]*subscriber.SubscriberGroup{}}
 	for i := 0; i < ng; i++ {
 		name := vlDecode(f[p])
-		g := &subscriber.SubscriberGroup{AAAPolicy: vlDecode(f[p+1]),
-			AccessTypes: []subscriber.AccessType{subscriber.AccessTypeL2GW}}
+		g := &subscriber.SubscriberGroup{AAAPolicy: vlDecode(f[p+1])} // access-types are declared per range
 		nr, _ := strconv.Atoi(f[p+2])
 		p += 3
 		for j := 0; j < nr; j++ {
-			vr := subscriber.VLANRange{SVLAN: vlDecode(f[p]), CVLAN: vlDecode(f[p+1])}
+			vr := subscriber.VLANRange{SVLAN: vlDecode(f[p]), CVLAN: vlDecode(f[p+1]), AccessTypes: vlAccess(f[p+3])}
 			if pol := vlDecode(f[p+2]); pol != "" {
 				vr.AAA = &subscriber.VLANAAAs{Enabled: true, Policy: pol}
 			}
 			g.VLANs = append(g.VLANs, vr)
-			p += 3
+			p += 4
 		}
 		sg.Groups[name] = g
 	}
